@@ -90,6 +90,8 @@ class Interp:
                     res = sub.run({})
                     if len(res) == 1:
                         v = res[0][1]
+                        if isinstance(v, tuple) and v[0] in ('ref', 'ptr'):
+                            v = ('refval', res[0][2].get(v[1], ('unknown', 'promoted referent')))
                         return v
                 return ('unknown', 'promoted')
             if 'val' in o:
@@ -219,10 +221,13 @@ class Interp:
         n = F.norm_callee(t)
         args = [self.operand(env, a) for a in t['args']]
         def deref(v):
-            if isinstance(v, tuple) and v[0] in ('ref', 'ptr'):
-                return env.get(v[1], ('unknown', 'dangling'))
-            if isinstance(v, tuple) and v[0] == 'refval':
-                return v[1]
+            for _ in range(8):
+                if isinstance(v, tuple) and v[0] in ('ref', 'ptr'):
+                    v = env.get(v[1], ('unknown', 'dangling'))
+                elif isinstance(v, tuple) and v[0] == 'refval':
+                    v = v[1]
+                else:
+                    break
             return v
         if n in self.models:
             return self.models[n](self, env, t, args, deref)
@@ -323,16 +328,20 @@ class Interp:
         return ('unknown', 'call %s' % n)
 
     # ---- driver
-    def run(self, init):
-        """returns list of (path, value of _0, final env) for every path reaching Return"""
+    def run(self, init, start=0, stop_at=()):
+        """returns list of (path, value of _0, final env) for every path reaching Return
+        (or, with value ('stopped', block), reaching a block in stop_at)"""
         out = []
-        work = [(0, dict(init), ())]
+        work = [(start, dict(init), ())]
         steps = 0
         while work:
             bi, env, path = work.pop()
             steps += 1
             if steps > 5000 or len(out) > MAX_PATHS:
                 raise Unmodelled('path explosion in %s' % self.b.path)
+            if bi in stop_at and path:
+                out.append((path, ('stopped', bi), env))
+                continue
             if path.count(bi) > 1:
                 raise Unmodelled('loop in %s at bb%d' % (self.b.path, bi))
             path = path + (bi,)
@@ -367,6 +376,8 @@ class Interp:
                     work.append((t['target'], env, path))
             elif k == 'SwitchInt':
                 d = self.operand(env, t['discr'])
+                if d[0] == 'const' and isinstance(d[1], str) and len(d[1]) == 1:
+                    d = ('const', ord(d[1]))
                 if d[0] == 'const' and isinstance(d[1], (bool, int)):
                     iv = int(d[1])
                     tg = [a[1] for a in t['arms'] if int(a[0]) == iv]
